@@ -9,7 +9,6 @@ def slotName : Option (Slot Nat) → String
   | some (.val _) => "val"
   | none => "none"
 
-def sortStrings (l : List String) : List String := l.mergeSort (fun a b => a ≤ b)
 
 def shape (s : St Nat) : String :=
   let rk := sortStrings ((s.dom.filter s.inRead).map fun k => DS.Hex.encode k ++ ":" ++ slotName (s.ent k))
